@@ -111,13 +111,13 @@ class R:
         oe = self._coerce(o)
         if oe is None:
             return NotImplemented
-        return lower(_real(self.e) / _real(oe))
+        return V.dom().div(self, o)
 
     def __rtruediv__(self, o):
         oe = self._coerce(o)
         if oe is None:
             return NotImplemented
-        return lower(_real(oe) / _real(self.e))
+        return V.dom().div(o, self)
 
     def __floordiv__(self, o):
         return V.dom().floordiv(self, o)
@@ -230,6 +230,7 @@ class Z3Dom:
         self.probe_stack = []
         self.known_cache = {}
         self.str_codes = {}
+        self.divisors = []
         self.loop_params = []    # active summarisation variables
         self.notes = []
         self.pc_getter = lambda: []
@@ -264,7 +265,18 @@ class Z3Dom:
         return isinstance(v, R) and v.e.is_int()
 
     def div(self, a, b):
-        return lower(_real(zconst(a)) / _real(zconst(b)))
+        be = _real(zconst(b))
+        if not V.is_conc(b):
+            self.note_divisor(be)
+        return lower(_real(zconst(a)) / be)
+
+    def note_divisor(self, be):
+        """every symbolic divisor met on the path; equalities are claimed on executions that do
+        not divide by zero (hypothesis), and a path on which a divisor MUST vanish is reported"""
+        for d in self.divisors:
+            if d.eq(be):
+                return
+        self.divisors.append(be)
 
     def to_real(self, v):
         if isinstance(v, R):
